@@ -141,6 +141,25 @@ theorem C03_code_flush_then_delete (ff df : Bool) :
     GenDB.flushImmutable ff df [] = (if ff then none else if df then none else some ["manager.flushToL0", "wal.Delete"]) :=
   DBTie.flushImmutable_table ff df
 
+
+/-- the Go code itself (the merge loop of `memtable.recover`, translated on every run): Open takes the leftover wal files in
+    sorted order; each one is read, every entry is applied to the memtable and written to the new wal, and only after the
+    last of its entries was written the old file is deleted — whenever the process dies inside a recovery, every entry is
+    still in a wal file; a wal that does not read panics instead of being skipped -/
+theorem C03_code_recovery_merge (sort : List Nat → List Nat) (readWal : Nat → Option (List (Nat × Nat))) (files : List Nat)
+    (hne : files ≠ []) (r : Nat × List (String × Nat)) (h : GenDB.recoverWals sort readWal files [] = some r) :
+    r.2 = (sort files).flatMap (fun f => DBTie.fileEvents f ((readWal f).getD [])) ∧
+    r.1 = (sort files).foldl (fun m f => ((readWal f).getD []).foldl (fun m e => max m e.2) m) 0 ∧
+    (∀ f ∈ sort files, (readWal f).isSome) := by
+  rw [DBTie.recoverWals_eq, if_neg hne] at h
+  have := DBTie.recoverSpec_some readWal (sort files) 0 [] r h
+  simpa using this
+
+/-- non-vacuity: two leftover wals, given out of order (the sort of this example: reversal) -/
+example : GenDB.recoverWals List.reverse (fun f => if f = 1 then some [(10, 3), (11, 5)] else some [(12, 4)]) [2, 1] [] =
+    some (5, [("wal.Open", 1), ("wal.Read", 1), ("skiplist.Set", 10), ("wal.Write", 10), ("skiplist.Set", 11), ("wal.Write", 11),
+      ("wal.Delete", 1), ("wal.Open", 2), ("wal.Read", 2), ("skiplist.Set", 12), ("wal.Write", 12), ("wal.Delete", 2)]) := by decide
+
 #print axioms C03_every_crash_point
 #print axioms C03_open_recovers
 #print axioms C03_acked_visible
@@ -149,4 +168,5 @@ theorem C03_code_flush_then_delete (ff df : Bool) :
 #print axioms C03_program_crash_anywhere
 #print axioms C03_code_fresh_table_name
 #print axioms C03_code_flush_then_delete
+#print axioms C03_code_recovery_merge
 end Props
